@@ -95,6 +95,9 @@ Fixed == <<
      SFor(SVar("i", NumL(0)), Bin("<", Id("i"), NumL(2)), Asg("i", Plus(Id("i"), NumL(1))),
           SBlock(<< SVar("c", Bin("*", Id("i"), NumL(100))), SFun("bump", <<>>, <<SExpr(Asg("c", Plus(Id("c"), NumL(1)))), SReturn(Id("c"))>>), SExpr(IAsg(Id("fs"), Id("i"), Id("bump"))) >>)),
      SPrint(Call(Idx(Id("fs"), NumL(0)), <<>>)), SPrint(Call(Idx(Id("fs"), NumL(1)), <<>>)), SPrint(Call(Idx(Id("fs"), NumL(0)), <<>>)), SPrint(Call(Idx(Id("fs"), NumL(1)), <<>>)) >>,
+  << SFun("f", <<"n">>, << SIf(Bin("==", Id("n"), NumL(0)), SBlock(<< SExpr(Asg("f", NumL(7))), SPrint(Id("f")), SReturn(NumL(0)) >>), None),
+                          SVar("r", Call(Id("f"), <<Bin("-", Id("n"), NumL(1))>>)), SPrint(Bin("==", Id("f"), NumL(7))), SReturn(Plus(Id("r"), NumL(1))) >>),
+     SPrint(Call(Id("f"), <<NumL(2)>>)), SPrint(Call(Id("f"), <<NumL(1)>>)) >>,
   << SBlock(<< SVar("a", NumL(1)), SFun("ga", <<>>, <<SReturn(Id("a"))>>), SBlock(<< SVar("a", NumL(2)), SPrint(Call(Id("ga"), <<>>)), SPrint(Id("a")) >>), SPrint(Call(Id("ga"), <<>>)) >>),
      SBlock(<< SVar("a", NumL(3)), SFun("ga", <<>>, <<SReturn(Id("a"))>>), SPrint(Call(Id("ga"), <<>>)) >>) >>
 >>
